@@ -194,7 +194,11 @@ def merge(dumps):
             cur["count"] += slot["count"]
         out["mon"].update(d["mon"])
         for k, v in d["notes"].items():
-            out["notes"].setdefault(k, v)
+            if k.startswith("set:"):
+                # union across shards
+                out["notes"][k] = sorted(set(out["notes"].get(k, [])) | set(v))
+            else:
+                out["notes"].setdefault(k, v)
         out["inconclusive"].extend(d["inconclusive"])
         exh.append(d["exhaustive"])
         out["capped"] = out["capped"] or d["capped"]
